@@ -340,7 +340,7 @@ def mc_coverage(results):
 
 
 CLAIM = ("Bounded model checking of the product of CBI's line cleaner and a reference scanner: from every reference lexical state "
-         "(19 access texts) every 1 (quick) / 2 (thorough) character continuation over the whole alphabet, observed through 8 "
+         "(20 access texts) every 1 (quick) / 2 (thorough) character continuation over the whole alphabet, observed through 12 "
          "characterising suffixes, yields exactly the reference's counted lines and directive lines - decided by CrossHair "
          "exhausting all paths per obligation.")
 LEVEL_NOTE = ("Trusted: CrossHair/z3 string theory, vp/refs/ref_clex.py (no system oracle exists for line classification), the "
